@@ -437,7 +437,7 @@ def run(ctx, res):
                 'loader; non-trivial = at least one task message written; distinct by op trace')
     res.assumptions = list(TRUSTED)
     lines, pending, envs = [], [], []
-    for _ in range(30 if thorough else 8):
+    for _ in range(250 if thorough else 8):
         algs = engine(r)
         targets = [f'T{i + 1}' for i in range(r.choice([1, 2, 3, 4]))]
         old = sys.stdout
@@ -449,7 +449,7 @@ def run(ctx, res):
         envs.append(env)
         for ops in scenarios(env):
             run_history(env, res, algs, ops, lines, pending)
-        for _h in range(10 if thorough else 5):
+        for _h in range(16 if thorough else 5):
             run_history(env, res, algs, gen_ops(r, env, r.choice([10, 20, 40])), lines, pending)
     if ctx['lean']:
         outs = common.driver(lines, 'C11')
